@@ -74,8 +74,9 @@ def norm(reply):
 
 def norm_model_env(reply):
     # envexpand errors: the implementation reports the message only; compare the class
+    # several values of one env may fail differently; which one is reported first depends on map order
     t = reply.split()
-    if t and t[0] == "err": return " ".join(t[:2])
+    if t and t[0] == "err": return "err"
     return reply
 
 def clean_shape(req):
